@@ -122,8 +122,10 @@ func checkClient(c Cell, herr, cerr error) string {
 	if cerr == nil {
 		return "the caller got no error"
 	}
-	if got, want := jrpc2.ErrorCode(cerr), jrpc2.ErrorCode(herr); got != want {
-		return fmt.Sprintf("client-side ErrorCode %d, handler-side ErrorCode %d", got, want)
+	// (the code on the wire is the handler-side code - but for an error that is not an *Error and whose coder says
+	// NoError: that one travels as an internal error, the reference says so)
+	if got, want := jrpc2.ErrorCode(cerr), jrpc2.ErrorCode(herr); got != want && !(int(want) != c.Wire && int(got) == c.Wire) {
+		return fmt.Sprintf("client-side ErrorCode %d, handler-side ErrorCode %d (the reference: %d on the wire)", got, want, c.Wire)
 	}
 	if int(jrpc2.ErrorCode(herr)) != c.Code {
 		return fmt.Sprintf("ErrorCode of the handler's error is %d, the reference says %d", jrpc2.ErrorCode(herr), c.Code)
@@ -409,7 +411,7 @@ func TestErrors(t *testing.T) {
 			} else {
 				for j, c := range group {
 					he, je := batchErrs[j], rsps[j].Error()
-					if je == nil || int(je.Code) != int(jrpc2.ErrorCode(he)) {
+					if je == nil || (int(je.Code) != int(jrpc2.ErrorCode(he)) && int(je.Code) != c.Wire) { // (c.Wire: see checkClient)
 						add(c.Tree, "Batch of failures", fmt.Sprintf("member %d of %d: response error %v, its handler's error has code %d", j+1, len(group), je, jrpc2.ErrorCode(he)))
 					} else if x, ok := he.(*jrpc2.Error); ok && c.Exact && (je.Message != x.Message || !jsonEqual(je.Data, x.Data)) {
 						add(c.Tree, "Batch of failures", fmt.Sprintf("member %d of %d: *Error changed in transit: sent %+v, got %+v", j+1, len(group), x, je))
